@@ -1,0 +1,17 @@
+//! Verification hook (family `gs_unit`), compiled only with `--cfg libp2p_verif`: a child module
+//! of `behaviour` so that the private `heartbeat` can be invoked as an explicit action.
+
+use super::Behaviour;
+use crate::{subscription_filter::TopicSubscriptionFilter, transform::DataTransform};
+
+impl<D, F> Behaviour<D, F>
+where
+    D: DataTransform + Send + 'static,
+    F: TopicSubscriptionFilter + Send + 'static,
+{
+    /// Runs one production `heartbeat()`.
+    #[doc(hidden)]
+    pub fn verif_gs_unit_heartbeat(&mut self) {
+        self.heartbeat()
+    }
+}
